@@ -196,6 +196,25 @@ Theorem C09_font_size_quant : forall emu, (12700 <= emu <= 50800126)%Z ->
 Proof. intros emu H. split; [exact (font_size_quant emu H)|exact (font_size_within_quantum emu)]. Qed.
 Print Assumptions C09_font_size_quant.
 
+(** quantum 0 (1 EMU) for position and margins: every accepted int reads back as itself *)
+Theorem C09_position_exact : forall z, (-27273042329600 <= z <= 27273042316900)%Z ->
+  stored (ad_codec A_CT_Point2D__x) (ad_kind A_CT_Point2D__x) (PInt z) = Ok (PInt z)
+  /\ stored (ad_codec A_CT_Point2D__y) (ad_kind A_CT_Point2D__y) (PInt z) = Ok (PInt z).
+Proof. exact coordinate_exact. Qed.
+Print Assumptions C09_position_exact.
+
+Theorem C09_margin_exact : forall z, (-2147483648 <= z <= 2147483647)%Z ->
+  stored (ad_codec A_CT_TextBodyProperties__lIns) (AOpt PNone) (PInt z) = Ok (PInt z).
+Proof. exact margin_exact. Qed.
+Print Assumptions C09_margin_exact.
+
+(** quantum of paragraph spacing in points: 1/100 pt, rounding down *)
+Theorem C09_spacing_point_quant : forall z, (0 <= z <= 20116800)%Z ->
+  stored (ad_codec A_CT_TextSpacingPoint__val) (ad_kind A_CT_TextSpacingPoint__val) (PInt z) = Ok (PInt (z / 127 * 127))
+  /\ (0 <= z - z / 127 * 127 < 127)%Z.
+Proof. exact spacing_point_quant. Qed.
+Print Assumptions C09_spacing_point_quant.
+
 (** instance *)
 Theorem C09_no_unmodelled : n_unmodelled = 0%nat.
 Proof. exact no_unmodelled. Qed.
